@@ -17,7 +17,7 @@ TIERS = {
 EXHAUSTIVE = {'quick': False, 'thorough': False}
 RULE = ('fixed jobs: 16 chunk programs that write every 16-bit integer (4096 consecutive values each, '
         'start taken from argv) next to guard variables and a neighbouring array; one program writing all '
-        '256 bytes and both bools; for every length 0..64 one program writing a byte array/string of that '
+        '256 bytes (computed, and as literal tables / string literals holding every byte value) and both bools; for every length 0..64 one program writing a byte array/string of that '
         'length in eight storage classes (const global, mutable global, mutable local literal, dynamic and '
         'filled, string literal, string variable, string converted with `is byte[]`, argv). seeded jobs: '
         'boundary and random integers at 24/32/64 bits, and "lean" programs in which write(int) is the '
@@ -61,13 +61,17 @@ def bytes_bools_prog():
                decl('byte', 'b', is_(V('i'), 'byte')),
                write(V('b')),
                *guard_checks()),
+        write(V('allc')), write(V('allm')), write(('str', ''.join(chr(v) for v in range(256)))),
+        write(is_(('str', ''.join(chr(255 - v) for v in range(256))), arr('byte', True))),
         write(B(True)), write(B(False)), writeln(B(True)), writeln(B(False)),
         decl('bool', 't', bin_('>', V('g1'), I(0))),
         write(V('t')), writeln(('un', 'not', V('t'))), writeln(),
         for_up('j', I(0), I(256), writeln(is_(V('j'), 'byte'))),
         ex(call('dump', V('nb'))),
     ]
-    return prog([], [dump_func('byte'), func('empty', '@is_you', [], *body)])
+    tables = [decl(arr('byte', True), 'allc', ('arr', tuple(C(v) for v in range(256))), True),
+              decl(arr('byte', False), 'allm', ('arr', tuple(C(255 - v) for v in range(256))), True)]
+    return prog(tables, [dump_func('byte'), func('empty', '@is_you', [], *body)])
 
 
 def data_of(L, salt):
